@@ -34,6 +34,8 @@ class Spec:
   soft_clauses = ()      # reported, but the state is still expanded
   name_unnamed = ()      # identifiers given to unnamed lines (op "nameit")
   unname_ops = False     # delete the ID tag of a GFA1 link / containment
+  clone_ops = ()         # names given to clones of segments (op "addclone")
+  readd_ops = False      # add a removed Line OBJECT again (op "readd")
 
   def __init__(self, **kw):
     for k, v in kw.items():
@@ -49,7 +51,7 @@ class Spec:
     return h(o)
 
   def ops(self, g, env, hist):
-    return enabled_ops(g, self)
+    return enabled_ops(g, self, env)
 
   def extra_ops(self, g, env, hist):
     return []
@@ -66,6 +68,7 @@ class Env:
   def __init__(self):
     self.removed = []
     self.errors = []
+    self.gone = []        # every Line object that left the Gfa (with cascade)
 
 
 def find_by_text(g, text):
@@ -81,6 +84,24 @@ def fmt_op(op):
 
 
 def apply_op(g, op, env):
+  if op[0] in ("rm", "rmi", "disc"):
+    try:
+      before = [l for l in g.lines if not observe.is_virtual(l)]
+    except Exception:
+      before = []
+    try:
+      return _apply_op(g, op, env)
+    finally:
+      for l in before:
+        try:
+          if not l.is_connected() and not any(l is x for x in env.gone):
+            env.gone.append(l)
+        except Exception:
+          pass
+  return _apply_op(g, op, env)
+
+
+def _apply_op(g, op, env):
   k = op[0]
   if k == "add":
     g.add_line(op[1])
@@ -117,6 +138,19 @@ def apply_op(g, op, env):
   elif k == "setfield":
     l = find_by_text(g, op[1])
     l.set(op[2], op[3])
+  elif k == "readd":
+    # the most recently removed Line OBJECT with that text is added again
+    cand = [l for l in env.gone if not l.is_connected() and
+            observe.safe_str(l) == op[1]]
+    if not cand:
+      raise LookupError("no removed line with text {!r}".format(op[1]))
+    g.add_line(cand[-1])
+  elif k == "addclone":
+    # a clone of a line of the Gfa, given another name, added as Line object
+    l = g.try_get_line(op[1])
+    c = l.clone()
+    c.name = op[2]
+    g.add_line(c)
   else:
     raise ValueError("unknown op " + repr(op))
 
@@ -147,6 +181,12 @@ def op_to_py(op):
   if k == "setfield":
     return "[l for l in g.lines if str(l) == {!r}][0].set({!r}, {!r})".format(
         op[1], op[2], op[3])
+  if k == "readd":
+    return ("g.add_line(removed[{!r}])   # the Line object removed earlier "
+            "(keep it: removed[str(l)] = l before g.rm)").format(op[1])
+  if k == "addclone":
+    return ("c = g.try_get_line({!r}).clone(); c.name = {!r}; "
+            "g.add_line(c)").format(op[1], op[2])
   return "# " + repr(op)
 
 
@@ -161,7 +201,7 @@ def standalone(spec, hist, tail=""):
   return "\n".join(lines)
 
 
-def enabled_ops(g, spec):
+def enabled_ops(g, spec, env=None):
   ops = []
   try:
     lines = list(g.lines)
@@ -202,15 +242,35 @@ def enabled_ops(g, spec):
     for n, l in named:
       if observe.rt_of(l) in ("L", "C") and not observe.is_virtual(l):
         ops.append(("deltag", observe.safe_str(l), "ID"))
+  if spec.readd_ops and env is not None:
+    seen_r = set()
+    for l in env.gone:
+      try:
+        if l.is_connected() or observe.is_virtual(l):
+          continue
+        t = observe.safe_str(l)
+      except Exception:
+        continue
+      if t not in seen_r and t not in texts and \
+          observe.rt_of(l) in ("L", "C", "P", "E", "G", "F", "O", "U"):
+        seen_r.add(t)
+        ops.append(("readd", t))
+  for n, l in named:
+    if observe.rt_of(l) == "S" and not observe.is_virtual(l):
+      for nm in spec.clone_ops:
+        if nm != n:
+          ops.append(("addclone", n, nm))
   if spec.tag_ops:
     for l in lines:
       if observe.rt_of(l) in ("H", "#") or observe.is_virtual(l):
         continue
       t = observe.safe_str(l)
-      if "xx:i:" in t:
+      if "xx:i:" in t or "xx:Z:" in t:
         ops.append(("deltag", t, "xx"))
       else:
         ops.append(("settag", t, "xx", 7))
+        if spec.clone_ops and observe.rt_of(l) == "S":
+          ops.append(("settag", t, "xx", "s"))
   return ops
 
 
